@@ -86,6 +86,8 @@ pub struct NetCfg {
     #[serde(default)]
     pub lock_yield: u32,
     #[serde(default)]
+    pub api_buf: usize,
+    #[serde(default)]
     pub udp_icmp: bool,
 }
 
@@ -281,6 +283,7 @@ pub async fn boot() -> Option<i32> {
         chaos: plan.net.chaos.to_sim(),
         spawn_yield: plan.net.spawn_yield,
         lock_yield: plan.net.lock_yield,
+        api_buf: plan.net.api_buf,
         udp_icmp: plan.net.udp_icmp,
         ..Default::default()
     };
@@ -486,6 +489,10 @@ fn write_result(plan: &Plan, extra: Value) {
                    "written": c.written, "read": c.read, "fin": c.fin_queued, "alive": c.ends_alive})
         })
         .collect();
+    let blocked = {
+        let (n, us, max) = sim::clock::blocked_sleeps();
+        json!({"calls": n, "us": us, "max_us": max})
+    };
     let out = json!({
         "seed": plan.seed,
         "end_us": sim::now_us(),
@@ -500,6 +507,7 @@ fn write_result(plan: &Plan, extra: Value) {
         "open_conns": conns,
         "proxy_listeners": sim::proxy_listeners().iter().map(|a| a.to_string()).collect::<Vec<_>>(),
         "entropy_bytes": sim::clock::entropy_bytes_served(),
+        "blocked_sleeps": blocked,
         "extra": extra,
     });
     let text = serde_json::to_string(&out).unwrap();
